@@ -467,14 +467,15 @@ class access:
             to the branch. Only that world is skipped: this prevents infinite
             repetition for branches that are otherwise finished, without leaving
             other worlds without a successor."""
-            try:
-                entry = next(reversed(self.tableau.history))
-            except StopIteration:
-                return None
             # This tends to stop modal explosion better than the max worlds check,
             # at least in its current form (all modal operators + worlds + 1).
-            if entry.rule == self and entry.target.branch == branch:
-                return entry.target['adds'][0][0]['world2']
+            for entry in reversed(self.tableau.history):
+                # The last rule applied to *this* branch, not to the tableau:
+                # otherwise two open branches take turns forever.
+                if entry.target.branch == branch:
+                    if entry.rule == self:
+                        return entry.target['adds'][0][0]['world2']
+                    break
             return None
 
         def _should_apply(self, branch: Branch,/):
